@@ -27,25 +27,49 @@ RB = ["parsec_dtd_insert_task", "parsec_execute_and_come_back", "__parsec_dtd_ta
       "parsec_dtd_tile_new_dc_data_key", "parsec_dtd_tile_new_dc_data_of", "parsec_dtd_tile_new_dc_data_of_key", "parsec_dtd_tile_new_dc_key_to_string",
       "parsec_dtd_tile_new_dc_rank_of", "parsec_dtd_tile_new_dc_rank_of_key", "parsec_dtd_tile_new_dc_vpid_of", "parsec_dtd_tile_new_dc_vpid_of_key",
       "parsec_dtd_taskpool_supports_device_type", "set_deps_for_flush_task"]
+# struct-hack patch: trailing flow storage reached by char* arithmetic -> typed member of the harness task object
+PATCHES = [(INT, r"#define TASK_FLOW_OF\(TASK, INDEX\) .*", "#define TASK_FLOW_OF(TASK, INDEX) (&((struct vp_vtask_s *)(TASK))->f[(INDEX)])")]
 UF = {"parsec_atomic_lock": 2, "made_sure_nextinline_is_null": 2, "release_ownership_of_data": 2}
 
 def queries(ctx):
     qs = []
     qs.append(Q("lookup_again_iff", ["lookup.c"], unwind=7, unwind_fn=UF, units=UNITS, object_bits=12, timeout=600,
-                remove_bodies=RB,
+                remove_bodies=RB, patches=PATCHES,
                 info={"symbolic": ["number of flows 0..3", "per flow: access mode in {INPUT,OUTPUT,INOUT,ATOMIC_WRITE}, all other op bits, copy absent / copy 0 / copy 1", "reader counts 0..2^20 of both copies"],
                       "functions": ["data_lookup_of_dtd_task", "parsec_dtd_data_copy_reader_count", "parsec_dtd_create_and_initialize_task"],
                       "stubs": STUBS, "bounds": {"flows": 3, "copies": 2}}))
-    qs.append(Q("chain_w_readers_w", ["chain.c"], unwind=7, unwind_fn=dict(UF, parsec_dtd_ordering_correctly=7), units=UNITS, object_bits=12, timeout=1500,
-                remove_bodies=RB,
-                info={"symbolic": ["access mode of both writers (OUTPUT/INOUT)", "number of readers 0..3", "second writer present or not",
-                                   "moment the first writer executes relative to the later insertions (0..4)", "completion order of the readers", "region index bits 0..3"],
-                      "functions": ["parsec_insert_dtd_task", "parsec_dtd_set_parent", "parsec_dtd_set_descendant", "parsec_dtd_schedule_task_if_ready", "complete_hook_of_dtd", "parsec_dtd_release_deps",
-                                    "parsec_dtd_ordering_correctly", "release_ownership_of_data", "made_sure_nextinline_is_null", "dtd_release_dep_fct", "parsec_dtd_release_local_task",
-                                    "parsec_release_dtd_task_to_mempool", "data_lookup_of_dtd_task", "output_data_of_dtd_task", "parsec_dtd_data_copy_reader_retain/_release"],
-                      "stubs": STUBS, "bounds": {"tasks": 5, "tiles": 1, "flows per task": 1}}))
+    ops = {"rw": "PARSEC_INOUT", "w": "PARSEC_OUTPUT"}
+    def chain(o0, o1, rmax, region, tiers, slow=False):
+        qs.append(Q("chain_%s_%s_r%d%s" % (o0, o1, rmax, "_reg%d" % region if region else ""), ["chain.c"],
+                    defs=["OPW0=%s" % ops[o0], "OPW1=%s" % ops[o1], "RMAX=%d" % rmax, "REGION=%d" % region],
+                    unwind=7, unwind_fn=dict(UF, parsec_dtd_ordering_correctly=7), units=UNITS, object_bits=12, timeout=1800,
+                    remove_bodies=RB, patches=PATCHES, tiers=tiers, slow=slow,
+                    info={"symbolic": ["number of readers r in 0..%d" % rmax, "second writer present or not",
+                                       "moment p in 0..r+1 at which the first writer executes relative to the later insertions (each later task is linked behind a live or an already released chain)",
+                                       "completion order of the readers"],
+                          "enumerated": ["access mode of first/second writer = %s/%s" % (ops[o0], ops[o1]), "region bits = %d" % region],
+                          "functions": ["parsec_insert_dtd_task", "parsec_dtd_set_parent", "parsec_dtd_set_descendant", "parsec_dtd_schedule_task_if_ready", "parsec_dtd_record_local_task_inserted",
+                                        "complete_hook_of_dtd", "parsec_dtd_release_deps", "parsec_dtd_iterate_successors", "parsec_dtd_ordering_correctly", "release_ownership_of_data",
+                                        "made_sure_nextinline_is_null", "dtd_release_dep_fct", "parsec_dtd_release_local_task", "parsec_release_dtd_task_to_mempool", "data_lookup_of_dtd_task",
+                                        "output_data_of_dtd_task", "parsec_dtd_create_and_initialize_task", "parsec_dtd_set_params_of_task", "parsec_dtd_data_copy_reader_retain/_release/_count"],
+                          "stubs": STUBS, "bounds": {"tasks": rmax + 2, "tiles": 1, "flows per task": 1},
+                          "note": "the (r, second writer, p) choice is an input of the query; the harness dispatches on it so that each choice is unfolded from the initial state"}))
+    chain("rw", "rw", 3, 0, ("quick", "thorough"))
+    chain("w", "rw", 2, 0, ("quick", "thorough"))
+    chain("rw", "w", 2, 0, ("quick", "thorough"))
+    if ctx.thorough:
+        chain("w", "w", 3, 0, ("thorough",)); chain("w", "rw", 3, 0, ("thorough",)); chain("rw", "w", 3, 0, ("thorough",)); chain("rw", "rw", 3, 5, ("thorough",))
     return qs
 
 def mutants(ctx):
-    return []
+    return [
+      Mutant("gate_off_by_one", INS, "if( parsec_dtd_data_copy_reader_count(copy) > 0 ) {", "if( parsec_dtd_data_copy_reader_count(copy) > 1 ) {"),
+      Mutant("gate_ignores_inout", INS, "if (PARSEC_OUTPUT & op_type_on_current_flow) {", "if (PARSEC_OUTPUT == op_type_on_current_flow) {"),
+      Mutant("reader_not_counted", OVL, "                        if(parsec_dtd_task_is_local(current_desc)){\n                           parsec_dtd_data_copy_reader_retain(current_task->super.data[current_dep].data_out);\n                        }",
+             "                        if(parsec_dtd_task_is_local(current_desc)){\n                        }", queries=["chain_rw_rw_r3", "chain_w_rw_r2"]),
+      Mutant("reader_never_released", OVL, "                if( PARSEC_INPUT == op_type_on_current_flow ) {\n                    if(parsec_dtd_task_is_local(current_task)){",
+             "                if( PARSEC_INOUT == op_type_on_current_flow ) {\n                    if(parsec_dtd_task_is_local(current_task)){", queries=["chain_w_rw_r2", "chain_rw_rw_r3"]),
+      Mutant("output_writer_walked_as_reader", OVL, "if( !(PARSEC_OUTPUT == desc_op_type || PARSEC_INOUT == desc_op_type) ) {", "if( !(PARSEC_INOUT == desc_op_type) ) {", queries=["chain_rw_w_r2"]),
+      Mutant("reader_release_not_atomic_dec", INT, "previous = parsec_atomic_fetch_dec_int32(&data->readers);", "previous = parsec_atomic_fetch_add_int32(&data->readers, 0);", queries=["chain_w_rw_r2", "chain_rw_rw_r3"]),
+    ]
 CLAIMED = False
